@@ -322,6 +322,21 @@ theorem names_unique_partial {α : Type} [Add α] [Sub α] [Mul α] [Div α] [Ne
   intro mid h
   exact (addInline_uids mid).nodup_iff.mpr h
 
+/-- **Every amplifier ends up with a gain, an output VOA and — in power mode — a power offset and target**: the
+operating point `set_one_amplifier` computes is total (gain, `out_voa`, `in_voa` are plain numbers for every
+input), and `delta_p`, `target_pch_out_dbm` are set exactly in power mode.  (That the type_variety is a library
+model is property C10.) -/
+theorem amps_complete [Rint ℝ] (c : Cfg ℝ) (pref prefTotal pd pv : ℝ) (a : AmpIn ℝ) :
+    (c.powerMode = true → (ampStep c pref prefTotal pd pv a).deltaP.isSome = true ∧
+                          (ampStep c pref prefTotal pd pv a).targetPch.isSome = true) ∧
+    (c.powerMode = false → (ampStep c pref prefTotal pd pv a).deltaP = none ∧
+                           (ampStep c pref prefTotal pd pv a).targetPch = none) := by
+  constructor
+  · intro h
+    cases hd : a.user.deltaP <;> simp [ampStep, h, hd]
+  · intro h
+    simp [ampStep, h]
+
 /-! ### non-vacuity -/
 
 /-- the hypotheses of `calcNewLength_spec` / `calcNewLength_long` hold for the shipped configuration
